@@ -34,7 +34,8 @@ inline Plan Gen(uint64_t seed)
    // renc: the encoding the RECEIVING side uses for Messages it sends the other way (duplex use of one gateway object: its two directions keep separate codec state)
    const int renc = ((gw == GW_BIN)||(gw == GW_TMPL)) ? (cfg.oneIn(3) ? enc : (int) cfg.below(10)) : 0;
    const bool duplex = (gw == GW_WS)||(((gw == GW_BIN)||(gw == GW_TMPL))&&(cfg.oneIn(2)));
-   p.push_back("cfg prop=C03 gw=" + std::string(kGwNames[gw]) + " enc=" + I(enc) + " lru=" + U(lru) + " eol=" + I(eol) + " minchunk=" + U(minchunk) + " ts=" + U(ts) + " telnet=" + I(telnet) + " renc=" + I(renc));
+   p.push_back("cfg prop=C03 gw=" + std::string(kGwNames[gw]) + " enc=" + I(enc) + " lru=" + U(lru) + " eol=" + I(eol) + " minchunk=" + U(minchunk) + " ts=" + U(ts) + " telnet=" + I(telnet) + " renc=" + I(renc)
+               + ((gw == GW_MICRO2CPP) ? (" ubuf=" + U(cfg.oneIn(2) ? (1u<<20) : (cfg.oneIn(2) ? (600 + cfg.below(1500)) : (3000 + cfg.below(14000))))) : std::string()));   // size of the micro sender's output buffer
    const int faultCls = cfg.oneIn(6) ? 0 : -1;   // one run in six is fault-free (whole-buffer I/O)
    static const char * dirs[] = {"sw", "rr", "rw", "sr"};
    for (const char * d : dirs) p.push_back(std::string("chunks ") + d + " " + SchedToStr(GenChunkSchedule(fl, faultCls)));
@@ -129,7 +130,7 @@ struct Harness
          case GW_MICRO2CPP: useMicroS = true; R.SetRef(new ExactFrame<MessageIOGateway>()); break;
          default: Fail("harness", "gateway type not implemented in C03");
       }
-      if (useMicroS) {microBufs[0].resize(1024); microBufs[1].resize(1<<20); UGGatewayInitialize(&microS, &microBufs[0][0], (uint32) microBufs[0].size(), &microBufs[1][0], (uint32) microBufs[1].size());}
+      if (useMicroS) {microBufs[0].resize(1024); microBufs[1].resize((size_t) std::max<long long>(300, cfg.i("ubuf", 1<<20))); UGGatewayInitialize(&microS, &microBufs[0][0], (uint32) microBufs[0].size(), &microBufs[1][0], (uint32) microBufs[1].size());}
       if (useMicroR) {microBufs[2].resize(1<<18); microBufs[3].resize(1024); UGGatewayInitialize(&microR, &microBufs[2][0], (uint32) microBufs[2].size(), &microBufs[3][0], (uint32) microBufs[3].size());}
       if (S()) {sio = new SimDataIO(&b2a, &a2b); S()->SetDataIO(DataIORef(sio));}
       if (R()) {rio = new SimDataIO(&a2b, &b2a); R()->SetDataIO(DataIORef(rio));}
@@ -237,16 +238,21 @@ struct Harness
    }
    void Enqueue(const MessageRef & m)
    {
+      if (useMicroS)
+      {
+         // the micro gateway builds its Messages in place in a caller-supplied output buffer of plan-given size: a Message that finds no room (yet) is simply not sent
+         const bool small = (microBufs[1].size() < (1u<<20));
+         UMessage um = UGGetOutgoingMessage(&microS, m()->what);
+         if (UMIsMessageValid(&um) == UFalse) {if (!small) Fail("harness", "UGGetOutgoingMessage found no room in a 1 MiB output buffer"); res.stats.inc("p.micro_output_buffer_full_message_not_sent"); return;}
+         std::vector<std::vector<uint8_t> > scratch;
+         if (!FillUMessage(&um, *m(), scratch)) {UGOutgoingMessageCancelled(&microS, &um); if (!small) Fail("c_codec_rejects", "the micro codec could not express a Message of the common type repertoire"); res.stats.inc("p.micro_output_buffer_full_message_not_sent"); return;}
+         UGOutgoingMessagePrepared(&microS, &um);
+         Units(m, sent);
+         return;
+      }
       Units(m, sent);
       if (S()) {if (S()->AddOutgoingMessage(m).IsError()) Fail("harness", "AddOutgoingMessage failed");}
-      else if (useMicroS)
-      {
-         UMessage um = UGGetOutgoingMessage(&microS, m()->what);
-         if (UMIsMessageValid(&um) == UFalse) Fail("harness", "UGGetOutgoingMessage found no room in a 1 MiB output buffer");
-         std::vector<std::vector<uint8_t> > scratch;
-         if (!FillUMessage(&um, *m(), scratch)) {UGOutgoingMessageCancelled(&microS, &um); Fail("c_codec_rejects", "the micro codec could not express a Message of the common type repertoire");}
-         UGOutgoingMessagePrepared(&microS, &um);
-      }
+      else if (useMicroS) {}
       else
       {
          const std::string b = Flat(m);
